@@ -604,7 +604,7 @@ pub fn step(l: &mut Locale, m: &mut Loc, op: &Op, likely: Option<&Likely>) -> (R
                 out.push(fail("likely-touched-variants", format!("{} -> {}", m.id.canon(), after.canon())));
             }
             if let Some(lk) = likely {
-                let ok = if matches!(op, Op::Maximize) { lk.maximize_acceptable(&m.id, &after) } else { lk.minimize_acceptable(&m.id, &after) };
+                let ok = if matches!(op, Op::Maximize) { lk.maximize_acceptable(&m.id, &after) } else { lk.minimize_acceptable(&m.id, &after, &lib_maximize) };
                 if let Err(why) = ok {
                     out.push(fail("likely-answer", format!("{}({}) = {}: {}", op.kind(), m.id.canon(), after.canon(), why)));
                 }
@@ -876,4 +876,16 @@ impl Op {
             _ => k.to_string(),
         }
     }
+}
+
+
+/// The library's own maximisation of a triple given as text (None = unchanged or not expressible).
+#[cfg(feature = "likely")]
+fn lib_maximize(l: &str, s: Option<&str>, r: Option<&str>) -> Option<crate::likely::Triple> {
+    let t = crate::engines::likelyeng::to_lib(l, s, r)?;
+    guard(|| unic_langid_impl::likelysubtags::maximize(t.0, t.1, t.2)).ok()?.map(|x| crate::engines::likelyeng::from_lib(&x))
+}
+#[cfg(not(feature = "likely"))]
+fn lib_maximize(_l: &str, _s: Option<&str>, _r: Option<&str>) -> Option<crate::likely::Triple> {
+    None
 }
